@@ -15,7 +15,7 @@ class H:
 
     def __init__(self, name, tiers=("quick", "thorough"), functions=(), domain="", bound="",
                  expect="pass", heavy=False, unsafe=None, timeout=None, optional=False,
-                 kf=None, signature=None, what=None, group=None, mod=0):
+                 kf=None, signature=None, what=None, group=None, mod=0, sub=""):
         self.name = name
         self.tiers = tiers
         self.functions = list(functions)
@@ -31,6 +31,7 @@ class H:
         self.what = what              # human description of the finding
         self.group = group            # explicit group name (own cargo-kani invocation)
         self.mod = mod                # index into spec["inject"]: the module that defines the harness
+        self.sub = sub                # nested module path below it ("prefix")
 
 
 def module_path(rel_file, modname):
@@ -108,7 +109,7 @@ class Run:
     # -- Kani ----------------------------------------------------------------------------------
     def full_name(self, h):
         crate, rel_file, _harness_rel, modname = self.spec["inject"][h.mod]
-        return module_path(rel_file, modname.split(" ")[-1]) + "::" + h.name
+        return module_path(rel_file, modname.split(" ")[-1]) + "::" + (h.sub + "::" if h.sub else "") + h.name
 
     def harnesses(self):
         hs = [h for h in self.spec["harnesses"] if self.tier in h.tiers]
